@@ -138,7 +138,9 @@ func run(c *core.Ctx) {
 	c.Assume("crypto/rand.Reader is replaced by a counter so that goa's shortID() is deterministic and injective; freshness is judged per case against inbound and earlier identifiers")
 	c.Assume("the samplers' random source is the package variable middleware.intn, replaced through an additive //go:build verif export file injected with go build -overlay (/repo untouched)")
 	c.Assume("which header is 'configured to trust' is the left-to-right fold of the option list as documented on the options: UseRequestIDOption(f) selects X-Request-Id and sets trust=f, RequestIDHeaderOption(n) selects n and sets trust=true, limit <= 0 means no limit")
-	c.Assume("'truncated to the limit' is accepted in bytes, in runes, or as the longest rune-aligned prefix within the byte limit; the gRPC middleware documents the fixed key x-request-id, so gRPC + RequestIDHeaderOption(custom) gets only the weak oracle (ID is a truncation of an inbound value or fresh)")
+	c.Assume("'truncated to the limit': the limit is a length and the length of a header / metadata value is its number of bytes (goa: 'truncating the request ID ... at the specified length', 'limiting x-request-id metadata length'), so the reference is the first min(len, limit) bytes of the inbound value, byte for byte, also when the cut falls inside a multi-byte character or the bytes are not UTF-8 (an earlier version of this check also accepted a rune-count truncation: that tolerance was not in the statement and is gone)")
+	c.Assume("inbound values with bytes >= 0x80 (multi-byte UTF-8, Latin-1, opaque bytes): legal obs-text in HTTP field values, carried unchanged by net/http's parser, server and client (real parser for every case, real server for a sub-product); on gRPC they are placed in the incoming metadata.MD directly (metadata.Pairs accepts any byte string and the grpc-go server does not validate inbound values; grpc-go's own client refuses to send bytes outside 0x20..0x7E under a non '-bin' key, so such values arrive from other clients / proxies only)")
+	c.Assume("the gRPC middleware documents the fixed key x-request-id, so gRPC + RequestIDHeaderOption(custom) gets only the weak oracle (ID is a truncation of an inbound value or fresh)")
 	c.Assume("quick/chain hops are in-process: HTTP hops are handler.ServeHTTP on a fresh request carrying only the headers the traced client sent; gRPC hops are interceptors called directly, outgoing metadata of the client interceptor becomes the incoming metadata of the next hop (validated over real servers in the thorough tier)")
 	c.Assume("what was 'actually written' is what the writer under the capture saw: the counts its Write returned (recorded by a harness spy) and what the httptest.ResponseRecorder kept / the real net/http client received; the short-writer models commit the status with the first WriteHeader(final)/Write/Flush as net/http does and answer a refused Write with (bytes taken, io.ErrShortWrite); HEAD requests (net/http accepts and discards the body) are not in the space; when the handler writes nothing the status is not asserted")
 	c.Assume("HTTP request-ID cases are raw request text read by net/http's request parser (http.ReadRequest), which is what turns the client's spelling of a header name into the key a handler sees; a sub-product goes through a real net/http server and client; gRPC metadata is built with metadata.Pairs (grpc lower-cases keys); a custom name that differs from X-Request-Id only by its spelling designates the same header (header names are case-insensitive)")
